@@ -279,6 +279,18 @@ def sh(cmd, cwd=None, timeout=3600):
     return p.returncode, p.stdout
 
 
+def sig_of(lane, case, failure):
+    """identity of an oracle failure: the lane's own classification, or a generic one for failures the shared builders
+    report (and for texts a lane's classifier cannot read)"""
+    import hashlib
+    if failure.startswith('while building the graph:'):
+        return lane.PROP + ':build:' + hashlib.sha1(failure.split(' changed ')[0][:120].encode()).hexdigest()[:10]
+    try:
+        return lane.signature(case, failure)
+    except Exception:  # noqa: BLE001
+        return lane.PROP + ':' + hashlib.sha1(failure[:80].encode()).hexdigest()[:12]
+
+
 def lane_targets(lane):
     """what a check has to build: the proof modules its audit file imports, and the driver -- NOT the whole library, so
     that a proof obligation of another property that a source change breaks (a regenerated table) does not take this
@@ -549,7 +561,7 @@ def run_check(prop, tier, seed, replay=None, jobs=None):
     unknown = []
     for r in oracle_fails:
         for failure in r['oracle'][:3]:
-            sig = lane.signature(r['case'], failure)
+            sig = sig_of(lane, r['case'], failure)
             if sig in open_sigs:
                 seen_known[sig] = open_sigs[sig]
             elif sig not in reported_sigs:
@@ -565,10 +577,10 @@ def run_check(prop, tier, seed, replay=None, jobs=None):
 
                 def still(c, _sig=sig):
                     rr = eval_case(lane, _W['client'], c)
-                    return any(lane.signature(c, f) == _sig for f in rr.get('oracle', []))
+                    return any(sig_of(lane, c, f) == _sig for f in rr.get('oracle', []))
                 small = lane.shrink(case, still)
                 r2 = eval_case(lane, _W['client'], small)
-                keep = [f for f in r2.get('oracle', []) if lane.signature(small, f) == sig]
+                keep = [f for f in r2.get('oracle', []) if sig_of(lane, small, f) == sig]
                 if keep:
                     case, failure, r = small, keep[0], r2
             except Exception:  # noqa: BLE001 - shrinking is best effort
@@ -584,7 +596,7 @@ def run_check(prop, tier, seed, replay=None, jobs=None):
             for r in corr_breaks[:6]:
                 for c2 in lane.widen(r['case']):
                     r2 = eval_case(lane, _W['client'], c2)
-                    fs = [f for f in r2.get('oracle', []) if lane.signature(c2, f) not in open_sigs]
+                    fs = [f for f in r2.get('oracle', []) if sig_of(lane, c2, f) not in open_sigs]
                     if fs:
                         found = (c2, fs[0], r2)
                         break
@@ -592,15 +604,15 @@ def run_check(prop, tier, seed, replay=None, jobs=None):
                     break
             if found:
                 c2, failure, r2 = found
-                sig = lane.signature(c2, failure)
+                sig = sig_of(lane, c2, failure)
 
                 def still2(c, _sig=sig):
                     rr = eval_case(lane, _W['client'], c)
-                    return any(lane.signature(c, f) == _sig for f in rr.get('oracle', []))
+                    return any(sig_of(lane, c, f) == _sig for f in rr.get('oracle', []))
                 try:
                     small = lane.shrink(c2, still2)
                     r3 = eval_case(lane, _W['client'], small)
-                    keep = [f for f in r3.get('oracle', []) if lane.signature(small, f) == sig]
+                    keep = [f for f in r3.get('oracle', []) if sig_of(lane, small, f) == sig]
                     if keep:
                         c2, failure, r2 = small, keep[0], r3
                 except Exception:  # noqa: BLE001
@@ -621,7 +633,7 @@ def run_check(prop, tier, seed, replay=None, jobs=None):
     if corr_breaks and not violations:
         # correspondence broken on cases where the oracle saw nothing (or only listed findings)
         rest = [r for r in corr_breaks
-                if not r['oracle'] or not all(lane.signature(r['case'], f) in open_sigs for f in r['oracle'])]
+                if not r['oracle'] or not all(sig_of(lane, r['case'], f) in open_sigs for f in r['oracle'])]
         if rest:
             r = rest[0]
             emit(r['case'], 'correspondence-broken',
